@@ -2,8 +2,32 @@
 """Apply a seeded change to /repo, run the given checks, undo.  Usage: run_seeded.py <patch> Cxx [Cyy …]
 Prints per check: exit code and the VIOLATION lines.  /repo must be clean before and is clean after."""
 import json, os, subprocess, sys
-patch = os.path.abspath(sys.argv[1])
-ids = sys.argv[2:]
+args = [a for a in sys.argv[1:] if a != "--scratch"]
+scratch = "--scratch" in sys.argv
+patch = os.path.abspath(args[0])
+ids = args[1:]
+if scratch:
+    # run the checks against a scratch worktree (PYTHONPATH + VERIF_REPO) instead of /repo: only for changes that do
+    # not alter any generated Lean file (otherwise concurrent users of lean/ are disturbed)
+    import shutil, tempfile
+    wt = tempfile.mkdtemp(prefix="runseed_", dir="/tmp")
+    shutil.rmtree(wt)
+    subprocess.run(["git", "-C", "/repo", "worktree", "add", "-q", "--detach", wt, "HEAD"], check=True)
+    out = {}
+    try:
+        subprocess.run(["git", "-C", wt, "apply", patch], check=True)
+        env = dict(os.environ, PYTHONPATH=wt, VERIF_REPO=wt)
+        for i in ids:
+            p = subprocess.run(["./check", i], cwd=os.path.dirname(os.path.dirname(os.path.abspath(__file__))),
+                               capture_output=True, text=True, timeout=7200, env=env)
+            lines = [l for l in p.stdout.split("\n") if l.startswith("VIOLATION") or l.startswith("  site=")
+                     or l.startswith("ERROR")]
+            out[i] = {"exit": p.returncode, "lines": [l[:300] for l in lines[:8]]}
+    finally:
+        subprocess.run(["git", "-C", "/repo", "worktree", "remove", "--force", wt])
+        shutil.rmtree(wt, ignore_errors=True)
+    print(json.dumps(out, indent=1))
+    sys.exit(0)
 st = subprocess.run(["git", "-C", "/repo", "status", "--porcelain", "--untracked-files=no"], capture_output=True, text=True).stdout
 if st.strip():
     sys.exit("refusing: /repo has uncommitted changes:\n" + st)
